@@ -360,7 +360,7 @@ def v_ite(c, a, b):
         return None
     if {ka, kb} <= {"none", "int", "str", "bool", "opt"}:
         oa, ob = to_opt(a, b), to_opt(b, a)
-        if oa is not None and ob is not None:
+        if oa is not None and ob is not None and kind_of(oa.val) == kind_of(ob.val):
             return SOpt(z3.If(c, oa.isnone, ob.isnone), v_ite(c, oa.val, ob.val))
     if isinstance(a, SRec) and isinstance(b, SRec) and a.cls is b.cls:
         return SRec(a.cls, {k: v_ite(c, a.fields[k], b.fields[k]) for k in a.fields})
